@@ -663,8 +663,8 @@ def failing_big(c):
 # ----------------------------------------------------------------------------- pipeline entry points
 
 def correspond(run):
-    n = 400 if run.tier == "quick" else 12000
-    nf = 150 if run.tier == "quick" else 4000
+    n = 900 if run.tier == "quick" else 12000
+    nf = 300 if run.tier == "quick" else 4000
     cases = common.load_corpus(PROP)
     cases += [gen_case(run.rng) for _ in range(n)] + [gen_file_case(run.rng) for _ in range(nf)]
     dis, sf = run_cases(run, cases)
